@@ -16,6 +16,7 @@ package disk
 //@ ghostfield container/list.Element.owner Int
 //@ ghost evq GSeq
 //@ ghost qobs Int
+//@ ghost resN Int
 
 //@ pred entKey(x) = ikey(strkey(#entry.key[x]))
 //@ pred entSod(x) = #lruItem.sizeOnDisk[itemOf(x)]
@@ -113,8 +114,8 @@ package disk
 //@   requires lruInv(c)
 //@   requires[C07] lock: locked
 //@   modifies c.currentSize, c.reservedSize, c.uncompressedSize, c.ll.seq, mapof(c.cache), #list.Element.owner, evq, qobs, c.totalDiskSizePeak
-//@   gmodifies held
-//@   gensures (result == nil ==> held == old(held) + size) && (result != nil ==> held == old(held))
+//@   gmodifies held, resN
+//@   gensures (result == nil ==> held == old(held) + size) && (result != nil ==> held == old(held)) && resN == old(resN) + 1
 //@   ensures[C03,C07] inv: lruInv(c)
 //@   ensures[C03] ok: result == nil ==> (size >= 0 && c.reservedSize == old(c.reservedSize) + size && dropped(c.ll.seq, old(c.ll.seq)))
 //@   ensures[C03,C17] refused: result != nil ==> (c.reservedSize == old(c.reservedSize) && c.currentSize == old(c.currentSize) && c.ll.seq == old(c.ll.seq) && evq == old(evq) && c.uncompressedSize == old(c.uncompressedSize))
